@@ -351,3 +351,145 @@ Definition etcd_decr_delete_window_closed_stmt : Prop :=
     (s', [ROk PUnit; RErr ENotExists]) = run estep s [ODeleteProcessing cproc; OAddWorkload w (Some cproc)].
 Lemma etcd_decr_delete_window_closed_holds : etcd_decr_delete_window_closed_stmt.
 Proof. unfold etcd_decr_delete_window_closed_stmt. cbv zeta. intros cl H. inversion H; subst cl. vm_compute. repeat split; reflexivity. Qed.
+
+(* ---- etcd: AddWorkload with processing  ||  DeleteProcessing, every schedule ---- *)
+Lemma cad_start_missing : forall d dk s, lookup (e_kv s) dk = None -> cad_step d dk s CadStart = (s, CadDone (Some ENotExists)).
+Proof. intros. cbn [cad_step]. rewrite H. reflexivity. Qed.
+Lemma cad_txn_missing : forall d dk s y, lookup (e_kv s) dk = None ->
+  cad_step d dk s (CadRead (VCnt y)) = (s, CadDone (Some ENotExists)).
+Proof.
+  intros d dk s y L. cbn [cad_step]. rewrite e_txn_eq. cbv zeta. cbn [forallb eval_cmp]. rewrite L.
+  cbn [andb exec_list exec_top]. rewrite L. destruct s; reflexivity.
+Qed.
+Definition del_state (s : estate) (dk : key) : estate := fst (e_delete s dk).
+Lemma del_state_missing : forall s dk, lookup (e_kv (del_state s dk)) dk = None.
+Proof. intros. unfold del_state, e_delete. cbn [fst e_kv]. apply lookup_del_same. Qed.
+Lemma estep_delete_proc : forall s p, estep s (ODeleteProcessing p) = (del_state s (proc_key p), ROk PUnit).
+Proof. reflexivity. Qed.
+
+Section AddDel.
+  Variables (dA : list (key * value)) (p : proc) (s0 : estate) (e0 : eentry) (c : Z).
+  Let dk := proc_key p.
+  Hypothesis L0 : lookup (e_kv s0) dk = Some e0.
+  Hypothesis V0 : e_val e0 = VCnt c.
+  Let del := ODeleteProcessing p.
+
+  Definition inv_ad (s : estate) (pa : cad_pc) (cd : eclient) : Prop :=
+    (s = s0 /\ before c pa /\ cd = EAtomic del None) \/
+    (s = commit dk s0 c dA /\ pa = CadDone None /\ cd = EAtomic del None) \/
+    (s = del_state s0 dk /\ before c pa /\ cd = EAtomic del (Some (ROk PUnit))) \/
+    (s = del_state (commit dk s0 c dA) dk /\ pa = CadDone None /\ cd = EAtomic del (Some (ROk PUnit))) \/
+    (s = del_state s0 dk /\ pa = CadDone (Some ENotExists) /\ cd = EAtomic del (Some (ROk PUnit))).
+
+  Lemma inv_ad_step : forall b s pa cd, inv_ad s pa cd ->
+    match b with
+    | true => inv_ad (fst (cad_step dA dk s pa)) (snd (cad_step dA dk s pa)) cd
+    | false => inv_ad (fst (eclient_step s cd)) pa (snd (eclient_step s cd))
+    end.
+  Proof.
+    intros b s pa cd I.
+    destruct I as [[E [PA CD]] | [[E [PA CD]] | [[E [PA CD]] | [[E [PA CD]] | [E [PA CD]]]]]]; subst s cd; destruct b;
+      cbn [eclient_step]; try rewrite estep_delete_proc; cbn [fst snd].
+    - destruct PA as [PA | PA]; subst pa.
+      + rewrite (cad_read dA dk s0 e0 L0), V0. cbn [fst snd]. left. repeat split; auto. right. reflexivity.
+      + rewrite (cad_txn_ok dA dk s0 e0 c L0 V0). cbn [fst snd]. right. left. auto.
+    - right. right. left. auto.
+    - subst pa. cbn. right. left. auto.
+    - right. right. right. left. subst pa. auto.
+    - destruct PA as [PA | PA]; subst pa.
+      + rewrite (cad_start_missing dA dk _ (del_state_missing s0 dk)). cbn [fst snd]. right. right. right. right. auto.
+      + rewrite (cad_txn_missing dA dk _ c (del_state_missing s0 dk)). cbn [fst snd]. right. right. right. right. auto.
+    - right. right. left. auto.
+    - subst pa. cbn. right. right. right. left. auto.
+    - right. right. right. left. auto.
+    - subst pa. cbn. right. right. right. right. auto.
+    - right. right. right. right. auto.
+  Qed.
+
+  Lemma erun2_inv_ad : forall sched s pa cd, inv_ad s pa cd ->
+    exists s' pa' cd', erun2 s (ECad dA dk pa) cd sched = (s', ECad dA dk pa', cd') /\ inv_ad s' pa' cd'.
+  Proof.
+    induction sched as [|b t IH]; intros s pa cd I; [exists s, pa, cd; auto|].
+    pose proof (inv_ad_step b s pa cd I) as I'. destruct b; cbn [erun2 eclient_step].
+    - destruct (cad_step dA dk s pa) as [s1 pa1]. apply IH. exact I'.
+    - destruct (eclient_step s cd) as [s1 cd1]. apply IH. exact I'.
+  Qed.
+End AddDel.
+
+Lemma estep_add_commit : forall s w p a e e0 c, w_parse w = Some (a, e) ->
+  lookup (e_kv s) (proc_key p) = Some e0 -> e_val e0 = VCnt c ->
+  estep s (OAddWorkload w (Some p)) = (commit (proc_key p) s c (workload_data w a e), ROk PUnit).
+Proof.
+  intros s w p a e e0 c P L V. unfold estep. cbn [read_op]. unfold e_ops_workload. rewrite P.
+  rewrite cad_alone, (cad_read _ _ s e0 L), V, (cad_txn_ok _ _ s e0 c L V). reflexivity.
+Qed.
+Lemma estep_add_missing : forall s w p a e, w_parse w = Some (a, e) -> lookup (e_kv s) (proc_key p) = None ->
+  estep s (OAddWorkload w (Some p)) = (s, RErr ENotExists).
+Proof.
+  intros s w p a e P L. unfold estep. cbn [read_op]. unfold e_ops_workload. rewrite P.
+  unfold e_batch_create_and_decr. rewrite L. reflexivity.
+Qed.
+
+(* every interleaving of AddWorkload-with-processing and DeleteProcessing on the
+   same counter ends like one of the two sequential orders *)
+Definition add_del_linearizable_stmt : Prop :=
+  forall (s0 : estate) (w : wdata) (p : proc) (cA : eclient) (c : Z) (e0 : eentry) (sched : list bool),
+    lookup (e_kv s0) (proc_key p) = Some e0 -> e_val e0 = VCnt c ->
+    cad_client w p = Some cA ->
+    let '(s', c1, c2) := erun2 s0 cA (EAtomic (ODeleteProcessing p) None) sched in
+    forall r1 r2, eclient_result c1 = Some r1 -> eclient_result c2 = Some r2 ->
+      (s', [r1; r2]) = run estep s0 [OAddWorkload w (Some p); ODeleteProcessing p] \/
+      (s', [r2; r1]) = run estep s0 [ODeleteProcessing p; OAddWorkload w (Some p)].
+Lemma add_del_linearizable_holds : add_del_linearizable_stmt.
+Proof.
+  intros s0 w p cA c e0 sched L0 V0 CA. unfold cad_client in CA.
+  destruct (w_parse w) as [[a e]|] eqn:P; [|discriminate]. inversion CA; subst cA. clear CA.
+  set (dA := workload_data w a e).
+  assert (I : inv_ad dA p s0 c s0 CadStart (EAtomic (ODeleteProcessing p) None)) by (left; repeat split; left; reflexivity).
+  destruct (erun2_inv_ad dA p s0 e0 c L0 V0 sched s0 CadStart _ I) as [s' [pa [cd [E J]]]]. rewrite E.
+  intros r1 r2 R1 R2. cbn [eclient_result] in R1.
+  destruct J as [[_ [PA CD]] | [[_ [PA CD]] | [[_ [PA CD]] | [[ES [PA CD]] | [ES [PA CD]]]]]]; subst cd; cbn [eclient_result] in R2; try discriminate R2.
+  - destruct PA as [X | X]; subst pa; discriminate R1.
+  - subst pa s'. inversion R1; inversion R2; subst. left. cbn [run].
+    rewrite (estep_add_commit s0 w p a e e0 c P L0 V0), estep_delete_proc. reflexivity.
+  - subst pa s'. inversion R1; inversion R2; subst. right. cbn [run].
+    rewrite estep_delete_proc, (estep_add_missing _ w p a e P (del_state_missing s0 (proc_key p))). reflexivity.
+Qed.
+
+(* redis: every writing method except BatchUpdate is one MULTI block or one command *)
+Lemma ratomic_second : forall o1 o2 r1 sched s1,
+  rrun2 s1 (RAtomic o1 (Some r1)) (RAtomic o2 None) sched = (s1, RAtomic o1 (Some r1), RAtomic o2 None) \/
+  rrun2 s1 (RAtomic o1 (Some r1)) (RAtomic o2 None) sched =
+    (fst (rstep s1 o2), RAtomic o1 (Some r1), RAtomic o2 (Some (snd (rstep s1 o2)))).
+Proof.
+  intros o1 o2 r1. induction sched as [|b t IH]; intro s1; [left; reflexivity|].
+  destruct b; cbn [rrun2 rclient_step]; [apply IH|].
+  destruct (rstep s1 o2) as [s2 r2] eqn:E. cbn [fst snd]. right.
+  clear IH. induction t as [|b t IHt]; [reflexivity|]. destruct b; cbn [rrun2 rclient_step]; exact IHt.
+Qed.
+Lemma ratomic_first : forall o1 o2 r2 sched s1,
+  rrun2 s1 (RAtomic o1 None) (RAtomic o2 (Some r2)) sched = (s1, RAtomic o1 None, RAtomic o2 (Some r2)) \/
+  rrun2 s1 (RAtomic o1 None) (RAtomic o2 (Some r2)) sched =
+    (fst (rstep s1 o1), RAtomic o1 (Some (snd (rstep s1 o1))), RAtomic o2 (Some r2)).
+Proof.
+  intros o1 o2 r2. induction sched as [|b t IH]; intro s1; [left; reflexivity|].
+  destruct b; cbn [rrun2 rclient_step]; [|apply IH].
+  destruct (rstep s1 o1) as [s2 r1] eqn:E. cbn [fst snd]. right.
+  clear IH. induction t as [|b t IHt]; [reflexivity|]. destruct b; cbn [rrun2 rclient_step]; exact IHt.
+Qed.
+Definition ratomic_pair_linearizable_stmt : Prop :=
+  forall (s : rstate) (o1 o2 : op) (sched : list bool),
+    let '(s', c1, c2) := rrun2 s (RAtomic o1 None) (RAtomic o2 None) sched in
+    forall r1 r2, rclient_result c1 = Some r1 -> rclient_result c2 = Some r2 ->
+      (s', [r1; r2]) = run rstep s [o1; o2] \/ (s', [r2; r1]) = run rstep s [o2; o1].
+Lemma ratomic_pair_linearizable_holds : ratomic_pair_linearizable_stmt.
+Proof.
+  intros s o1 o2 sched. destruct sched as [|b t]; [cbn; intros; discriminate|].
+  destruct b; cbn [rrun2 rclient_step].
+  - destruct (rstep s o1) as [s1 r1] eqn:E1.
+    destruct (ratomic_second o1 o2 r1 t s1) as [H | H]; rewrite H; cbn [rclient_result]; intros x y X Y; [discriminate|].
+    inversion X; inversion Y; subst. left. cbn [run]. rewrite E1. destruct (rstep s1 o2). reflexivity.
+  - destruct (rstep s o2) as [s1 r2] eqn:E2.
+    destruct (ratomic_first o1 o2 r2 t s1) as [H | H]; rewrite H; cbn [rclient_result]; intros x y X Y; [discriminate|].
+    inversion X; inversion Y; subst. right. cbn [run]. rewrite E2. destruct (rstep s1 o1). reflexivity.
+Qed.
